@@ -45,6 +45,9 @@ func (ex *Exec) evalCall(e *ast.CallExpr, st *State) Value {
 				// evaluate in the pre-state without emitting obligations
 				tmp := ex.oldState.fork(st.pc)
 				for l, val := range st.store {
+					if _, inBase := ex.base[l]; inBase {
+						continue // global / heap location: keep its pre-state value
+					}
 					if _, have := tmp.store[l]; !have {
 						tmp.store[l] = val
 					}
@@ -64,6 +67,13 @@ func (ex *Exec) evalCall(e *ast.CallExpr, st *State) Value {
 	if id, ok := fun.(*ast.Ident); ok {
 		if fo, isFn := ex.objOf(id).(*types.Func); isFn && ex.isPrelude(fo) {
 			switch id.Name {
+			case "sameEntries":
+				a, ok1 := ex.eval(e.Args[0], st).(*MapV)
+				b, ok2 := ex.eval(e.Args[1], st).(*MapV)
+				if !ok1 || !ok2 || a.Nil || b.Nil {
+					unsupported("sameEntries on nil or non-map")
+				}
+				return ex.ts.Eq(a.Val, b.Val)
 			case "forallRange", "existsRange":
 				return ex.callQuantRange(id.Name == "forallRange", e, st)
 			case "ite":
